@@ -363,6 +363,15 @@ impl Exec {
     fn lib_point(&self, id: &'static str, data: u64) {
         // accesses to the library's flags (cancel flag, notification flag): only those to the
         // notification flag are scheduling points, and only in scenarios about the wake-up protocol
+        if id == "atomic:loaded" || id == "atomic:stored" {
+            // the point right after an access to the notification flag (wake-up scenarios only)
+            if self.flag_points && data == self.flag_addr.load(Ordering::Relaxed) {
+                if let Some(tid) = my_tid(self) {
+                    self.park(tid, if id == "atomic:loaded" { "flag:loaded" } else { "flag:stored" }, 0, Wait::None);
+                }
+            }
+            return;
+        }
         if id == "atomic:load" || id == "atomic:store" {
             // stores to the cancel flag (tick, restart, before a spawn) are scheduling points in
             // every scenario; its loads sit in the worker's per-item loops and are not
